@@ -499,6 +499,52 @@ template <typename T, typename It> static void irow (const char *tn, const char 
 {
   std::printf ("I %s %s : %d %d\n", tn, in, (int) AI<T>::template is_contiguous_iterator<It>::value, truly);
 }
+// class types: the verdicts for construction / assignment from a prvalue, a non-const lvalue and a const lvalue, and whether
+// really running the selected constructor / assignment operator leaves exactly the source's bytes (ground truth by execution)
+struct Pod2 { int a; int b; };
+struct Fwd      // trivially copyable, but construction from a NON-CONST LVALUE selects the template (which is not a copy constructor)
+{
+  int value; int hops;
+  Fwd () = default; Fwd (const Fwd&) = default; Fwd (Fwd&&) = default; Fwd& operator= (const Fwd&) = default; Fwd& operator= (Fwd&&) = default;
+  template <typename U, typename std::enable_if<std::is_same<typename std::decay<U>::type, Fwd>::value>::type * = nullptr>
+  Fwd (U&& u) : value (u.value), hops (u.hops + 1) { }
+};
+struct FwdAsg   // the same for assignment
+{
+  int value; int hops;
+  FwdAsg () = default; FwdAsg (const FwdAsg&) = default; FwdAsg (FwdAsg&&) = default; FwdAsg& operator= (const FwdAsg&) = default; FwdAsg& operator= (FwdAsg&&) = default;
+  template <typename U, typename std::enable_if<std::is_same<typename std::decay<U>::type, FwdAsg>::value>::type * = nullptr>
+  FwdAsg& operator= (U&& u) { value = u.value; hops = u.hops + 1; return *this; }
+};
+struct NonTriv { int v; NonTriv () : v (0) { } NonTriv (const NonTriv& o) : v (o.v + 1) { } NonTriv& operator= (const NonTriv& o) { v = o.v + 1; return *this; } };
+template <typename T> static T ksample (int k) { T t = T (); unsigned char *p = reinterpret_cast<unsigned char *> (&t); for (std::size_t i = 0; i < sizeof (T); ++i) p[i] = static_cast<unsigned char> ((k + 1) * 17 + i * 3) & 0x3f; return t; }
+template <typename From, typename To, typename Arg> static int kctor (void)
+{
+  if (sizeof (From) != sizeof (To)) return 0;
+  From f = ksample<From> (1); unsigned char before[sizeof (From)]; std::memcpy (before, &f, sizeof (From));
+  alignas (To) unsigned char buf[sizeof (To)];
+  To *t = new (buf) To (static_cast<Arg> (f));
+  int same = std::memcmp (t, before, sizeof (To)) == 0;
+  t->~To ();
+  return same;
+}
+template <typename From, typename To, typename Arg> static int kasg (void)
+{
+  if (sizeof (From) != sizeof (To)) return 0;
+  From f = ksample<From> (1); unsigned char before[sizeof (From)]; std::memcpy (before, &f, sizeof (From));
+  To t = ksample<To> (2);
+  t = static_cast<Arg> (f);
+  return std::memcmp (&t, before, sizeof (To)) == 0;
+}
+template <typename From, typename To> static void krow (const char *fn, const char *tn)
+{
+  std::printf ("K %s %s : %d %d %d %d %d %d : %d %d %d %d %d %d\n", fn, tn,
+    (int) AI<To>::template is_uninitialized_memcpyable<To, From>::value, (int) AI<To>::template is_uninitialized_memcpyable<To, From&>::value,
+    (int) AI<To>::template is_uninitialized_memcpyable<To, const From&>::value,
+    (int) AI<To>::template is_memcpyable<From>::value, (int) AI<To>::template is_memcpyable<From&>::value, (int) AI<To>::template is_memcpyable<const From&>::value,
+    kctor<From, To, From&&> (), kctor<From, To, From&> (), kctor<From, To, const From&> (),
+    kasg<From, To, From&&> (), kasg<From, To, From&> (), kasg<From, To, const From&> ());
+}
 #define ROW(F, T) row<F, T> (#F, #T)
 #define PROW(F, T) prow<F, T> (#F, #T)
 int main ()
@@ -526,12 +572,14 @@ def memcpy_table(std='c++17', cxx='g++'):
            ('bool', 'std::vector<bool>::iterator', 0), ('bool', 'bool *', 1), ('long', 'gch::small_vector<int, 3>::iterator', 1)]
     for t, it, truly in its:
         calls.append('irow<%s, %s> ("%s", "%s", %d);' % (t, it, t, re.sub(r'\W+', '_', it).strip('_'), truly))
+    for t in ('Pod2', 'Fwd', 'FwdAsg', 'NonTriv', 'int', 'EI'):
+        calls.append('krow<%s, %s> ("%s", "%s");' % (t, t, t, t))
     hdr = MEMCPY_HDR.replace('#include <iterator>', '#include <iterator>\n#include <istream>')
     # the typedef line must precede main's body statements: build_table indents each call inside main
     lines, err = build_table('memcpy_' + std.replace('+', 'p') + '_' + cxx.replace('+', 'p'), hdr, calls, cxx, std=std, shards=1)
     if err:
         return None, err
-    rows = dict(V=[], P=[], I=[])
+    rows = dict(V=[], P=[], I=[], K=[])
     for l in lines:
         tag, rest = l.split(' ', 1)
         names, *parts = [x.strip() for x in rest.split(':')]
@@ -554,6 +602,10 @@ def write_memcpy_lean(rows, std):
            'structure McPtrRow where\n  fromName : String\n  toName : String\n  convertible : Bool\n  offset : Int\n  asg : Bool\n  ctor : Bool\n  deriving Repr\n',
            '/-- iterator classification: what the header says, and whether the iterator really addresses contiguous storage -/',
            'structure McItRow where\n  elem : String\n  iter : String\n  deemed : Bool\n  truly : Bool\n  deriving Repr\n',
+           '/-- a class (or scalar) type T → T: the header\'s verdicts for construction / assignment from a prvalue, a non-const lvalue and',
+           '    a const lvalue, and whether RUNNING the constructor / assignment the language selects leaves exactly the source\'s bytes -/',
+           'structure McClassRow where\n  name : String\n  ctorR : Bool\n  ctorL : Bool\n  ctorC : Bool\n  asgR : Bool\n  asgL : Bool\n  asgC : Bool',
+           '  truthCtorR : Bool\n  truthCtorL : Bool\n  truthCtorC : Bool\n  truthAsgR : Bool\n  truthAsgL : Bool\n  truthAsgC : Bool\n  deriving Repr\n',
            'def mcTable : List McRow := [']
     vr = []
     for names, parts in rows['V']:
@@ -566,6 +618,8 @@ def write_memcpy_lean(rows, std):
     out.append(',\n'.join('  ⟨"%s", "%s", %s, %d, %s, %s⟩' % (n[0], n[1], b(p[0][0]), p[0][1], b(p[1][0] or p[1][1]), b(p[1][2] or p[1][3])) for n, p in rows['P']))
     out.append(']\n\ndef mcItTable : List McItRow := [')
     out.append(',\n'.join('  ⟨"%s", "%s", %s, %s⟩' % (n[0], n[1], b(p[0][0]), b(p[0][1])) for n, p in rows['I']))
+    out.append(']\n\ndef mcClassTable : List McClassRow := [')
+    out.append(',\n'.join('  ⟨"%s", %s⟩' % (n[0], ', '.join(b(x) for x in p[0] + p[1])) for n, p in rows['K']))
     out.append(']\n\nend SvModel.Gen\n')
     path = os.path.join(vlib.LEAN, 'SvModel', 'Gen', 'MemcpyTable.lean')
     text = '\n'.join(out)
